@@ -297,54 +297,98 @@ func (v *VolIntent) body() []byte {
 	return b
 }
 
-// children returns the child IEs of the Create/Update grouped IE, id first, then
+type kid struct {
+	t     TLV
+	label string
+}
+
+func labelsOf(ks []kid) []string {
+	out := make([]string, len(ks))
+	for i, k := range ks {
+		out[i] = k.label
+	}
+	return out
+}
+
+func tlvsOf(ks []kid) []TLV {
+	out := make([]TLV, len(ks))
+	for i, k := range ks {
+		out[i] = k.t
+	}
+	return out
+}
+
+// orderOf returns the indexes i of labels "<prefix>:<i>" in the order they appear.
+func orderOf(labels []string, prefix string, n int) []int {
+	var out []int
+	for _, l := range labels {
+		var i int
+		if _, err := fmt.Sscanf(l, prefix+":%d", &i); err == nil && strings.HasPrefix(l, prefix+":") {
+			out = append(out, i)
+		}
+	}
+	if len(out) != n {
+		out = out[:0]
+		for i := 0; i < n; i++ {
+			out = append(out, i)
+		}
+	}
+	return out
+}
+
+func (r *RuleIntent) pdiKids() []kid {
+	var pdi []kid
+	if r.SrcIf != nil {
+		pdi = append(pdi, kid{tlv(ieSourceInterface, *r.SrcIf), "srcif"})
+	}
+	if r.FTEID != nil {
+		v := append([]byte{0x01}, u32b(*r.FTEID)...)
+		v = append(v, r.FTEIDIP[:]...)
+		pdi = append(pdi, kid{TLV{T: ieFTEID, V: v}, "fteid"})
+	}
+	if r.NetIns != "" {
+		pdi = append(pdi, kid{TLV{T: ieNetworkInstance, V: []byte(r.NetIns)}, "ni"})
+	}
+	if r.UEIP != nil {
+		pdi = append(pdi, kid{TLV{T: ieUEIPAddress, V: append([]byte{0x02}, r.UEIP[:]...)}, "ueip"})
+	}
+	for i := range r.SDFs {
+		pdi = append(pdi, kid{r.SDFs[i].tlv(), fmt.Sprintf("sdf:%d", i)})
+	}
+	return permute(pdi, r.PDIOrd)
+}
+
+// kids returns the child IEs of the Create/Update grouped IE, id first, then
 // permuted by Order (the id may move too: order independence is part of C02).
-func (r *RuleIntent) children(update bool) []TLV {
-	ks := []TLV{r.idTLV()}
+func (r *RuleIntent) kids(update bool) []kid {
+	ks := []kid{{r.idTLV(), "id"}}
+	add := func(t TLV, label string) { ks = append(ks, kid{t, label}) }
 	switch r.Kind {
 	case "pdr":
 		if r.Prec != nil {
-			ks = append(ks, TLV{T: iePrecedence, V: u32b(*r.Prec)})
+			add(TLV{T: iePrecedence, V: u32b(*r.Prec)}, "prec")
 		}
 		if !r.NoPDI {
-			var pdi []TLV
-			if r.SrcIf != nil {
-				pdi = append(pdi, tlv(ieSourceInterface, *r.SrcIf))
-			}
-			if r.FTEID != nil {
-				v := append([]byte{0x01}, u32b(*r.FTEID)...)
-				v = append(v, r.FTEIDIP[:]...)
-				pdi = append(pdi, TLV{T: ieFTEID, V: v})
-			}
-			if r.NetIns != "" {
-				pdi = append(pdi, TLV{T: ieNetworkInstance, V: []byte(r.NetIns)})
-			}
-			if r.UEIP != nil {
-				pdi = append(pdi, TLV{T: ieUEIPAddress, V: append([]byte{0x02}, r.UEIP[:]...)})
-			}
-			for i := range r.SDFs {
-				pdi = append(pdi, r.SDFs[i].tlv())
-			}
-			ks = append(ks, grp(iePDI, permute(pdi, r.PDIOrd)...))
+			add(grp(iePDI, tlvsOf(r.pdiKids())...), "pdi")
 		}
 		if r.OHR != nil {
-			ks = append(ks, tlv(ieOuterHdrRemoval, *r.OHR))
+			add(tlv(ieOuterHdrRemoval, *r.OHR), "ohr")
 		}
 		if r.FARID != nil {
-			ks = append(ks, TLV{T: ieFARID, V: u32b(*r.FARID)})
+			add(TLV{T: ieFARID, V: u32b(*r.FARID)}, "far")
 		}
-		for _, q := range r.QERIDs {
-			ks = append(ks, TLV{T: ieQERID, V: u32b(q)})
+		for i, q := range r.QERIDs {
+			add(TLV{T: ieQERID, V: u32b(q)}, fmt.Sprintf("qer:%d", i))
 		}
-		for _, u := range r.URRIDs {
-			ks = append(ks, TLV{T: ieURRID, V: u32b(u)})
+		for i, u := range r.URRIDs {
+			add(TLV{T: ieURRID, V: u32b(u)}, fmt.Sprintf("urr:%d", i))
 		}
 	case "far":
 		if r.Action != nil {
 			if r.ActionLen == 2 {
-				ks = append(ks, tlv(ieApplyAction, byte(*r.Action), byte(*r.Action>>8)))
+				add(tlv(ieApplyAction, byte(*r.Action), byte(*r.Action>>8)), "act")
 			} else {
-				ks = append(ks, tlv(ieApplyAction, byte(*r.Action)))
+				add(tlv(ieApplyAction, byte(*r.Action)), "act")
 			}
 		}
 		if r.FP != nil {
@@ -352,67 +396,69 @@ func (r *RuleIntent) children(update bool) []TLV {
 			if update {
 				t = ieUpdFwdParams
 			}
-			ks = append(ks, grp(t, r.FP.kids()...))
+			add(grp(t, r.FP.kids()...), "fp")
 		}
 		if r.BARID != nil {
-			ks = append(ks, tlv(ieBARID, *r.BARID))
+			add(tlv(ieBARID, *r.BARID), "bar")
 		}
 	case "qer":
 		if r.CorrID != nil {
-			ks = append(ks, TLV{T: ieQERCorrID, V: u32b(*r.CorrID)})
+			add(TLV{T: ieQERCorrID, V: u32b(*r.CorrID)}, "corr")
 		}
 		if r.Gate != nil {
-			ks = append(ks, tlv(ieGateStatus, *r.Gate))
+			add(tlv(ieGateStatus, *r.Gate), "gate")
 		}
 		if r.MBR != nil {
-			ks = append(ks, TLV{T: ieMBR, V: append(u40b(r.MBR[0]), u40b(r.MBR[1])...)})
+			add(TLV{T: ieMBR, V: append(u40b(r.MBR[0]), u40b(r.MBR[1])...)}, "mbr")
 		}
 		if r.GBR != nil {
-			ks = append(ks, TLV{T: ieGBR, V: append(u40b(r.GBR[0]), u40b(r.GBR[1])...)})
+			add(TLV{T: ieGBR, V: append(u40b(r.GBR[0]), u40b(r.GBR[1])...)}, "gbr")
 		}
 		if r.QFI != nil {
-			ks = append(ks, tlv(ieQFI, *r.QFI))
+			add(tlv(ieQFI, *r.QFI), "qfi")
 		}
 		if r.RQI != nil {
-			ks = append(ks, tlv(ieRQI, *r.RQI))
+			add(tlv(ieRQI, *r.RQI), "rqi")
 		}
 		if r.PPI != nil {
-			ks = append(ks, tlv(iePagingPolicyInd, *r.PPI))
+			add(tlv(iePagingPolicyInd, *r.PPI), "ppi")
 		}
 	case "urr":
 		if r.Method != nil {
-			ks = append(ks, tlv(ieMeasMethod, *r.Method))
+			add(tlv(ieMeasMethod, *r.Method), "meth")
 		}
 		if r.Trigger != nil {
 			t := *r.Trigger
 			if r.TrigLen == 3 {
-				ks = append(ks, tlv(ieReportingTrig, byte(t), byte(t>>8), byte(t>>16)))
+				add(tlv(ieReportingTrig, byte(t), byte(t>>8), byte(t>>16)), "trig")
 			} else {
-				ks = append(ks, tlv(ieReportingTrig, byte(t), byte(t>>8)))
+				add(tlv(ieReportingTrig, byte(t), byte(t>>8)), "trig")
 			}
 		}
 		if r.Period != nil {
-			ks = append(ks, TLV{T: ieMeasPeriod, V: u32b(*r.Period)})
+			add(TLV{T: ieMeasPeriod, V: u32b(*r.Period)}, "period")
 		}
 		if r.MInfo != nil {
-			ks = append(ks, tlv(ieMeasInfo, *r.MInfo))
+			add(tlv(ieMeasInfo, *r.MInfo), "minfo")
 		}
 		if r.VolTh != nil {
-			ks = append(ks, TLV{T: ieVolumeThreshold, V: r.VolTh.body()})
+			add(TLV{T: ieVolumeThreshold, V: r.VolTh.body()}, "volth")
 		}
 		if r.VolQu != nil {
-			ks = append(ks, TLV{T: ieVolumeQuota, V: r.VolQu.body()})
+			add(TLV{T: ieVolumeQuota, V: r.VolQu.body()}, "volqu")
 		}
 	case "bar":
 		if r.Delay != nil {
-			ks = append(ks, tlv(ieDLDNDelay, *r.Delay))
+			add(tlv(ieDLDNDelay, *r.Delay), "delay")
 		}
 		if r.Count != nil {
-			ks = append(ks, tlv(ieSuggBufPktCount, *r.Count))
+			add(tlv(ieSuggBufPktCount, *r.Count), "count")
 		}
 	}
 	return permute(ks, r.Order)
 }
+
+func (r *RuleIntent) children(update bool) []TLV { return tlvsOf(r.kids(update)) }
 
 var createIE = map[string]uint16{"pdr": ieCreatePDR, "far": ieCreateFAR, "qer": ieCreateQER, "urr": ieCreateURR, "bar": ieCreateBAR}
 var updateIE = map[string]uint16{"pdr": ieUpdatePDR, "far": ieUpdateFAR, "qer": ieUpdateQER, "urr": ieUpdateURR, "bar": ieUpdateBARSMR}
@@ -507,10 +553,12 @@ func (r *RuleIntent) expectAttrs(update bool) (attrs []Attr, wild map[uint16]boo
 				pdi = append(pdi, aBytes(aPDIUEAddr, r.UEIP[:]))
 			}
 			uplink := r.SrcIf != nil && *r.SrcIf == 0
-			for i := range r.SDFs {
+			for _, i := range orderOf(labelsOf(r.pdiKids()), "sdf", len(r.SDFs)) {
 				pdi = append(pdi, r.SDFs[i].expectAttr(uplink))
 			}
-			attrs = append(attrs, aNest(aPDRPDI, pdi...))
+			if len(pdi) > 0 {
+				attrs = append(attrs, aNest(aPDRPDI, pdi...))
+			}
 		}
 		if r.OHR != nil {
 			attrs = append(attrs, aU8(aPDROHR, *r.OHR))
@@ -518,11 +566,12 @@ func (r *RuleIntent) expectAttrs(update bool) (attrs []Attr, wild map[uint16]boo
 		if r.FARID != nil {
 			attrs = append(attrs, aU32(aPDRFARID, *r.FARID))
 		}
-		for _, q := range r.QERIDs {
-			attrs = append(attrs, aU32(aPDRQERID, q))
+		labels := labelsOf(r.kids(update))
+		for _, i := range orderOf(labels, "qer", len(r.QERIDs)) {
+			attrs = append(attrs, aU32(aPDRQERID, r.QERIDs[i]))
 		}
-		for _, u := range r.URRIDs {
-			attrs = append(attrs, aU32(aPDRURRID, u))
+		for _, i := range orderOf(labels, "urr", len(r.URRIDs)) {
+			attrs = append(attrs, aU32(aPDRURRID, r.URRIDs[i]))
 		}
 		wild[aPDRUnix] = true
 		wild[aPDRRole] = true
@@ -595,10 +644,18 @@ func (r *RuleIntent) expectAttrs(update bool) (attrs []Attr, wild map[uint16]boo
 			attrs = append(attrs, aU64(aURRInfo, uint64(*r.MInfo)))
 		}
 		if r.VolTh != nil {
-			attrs = append(attrs, r.VolTh.attr(aURRVolTh))
+			if r.VolTh.Flags&7 == 0 {
+				wild[aURRVolTh] = true // an IE that names no volume: nothing to hand over
+			} else {
+				attrs = append(attrs, r.VolTh.attr(aURRVolTh))
+			}
 		}
 		if r.VolQu != nil {
-			attrs = append(attrs, r.VolQu.attr(aURRVolQu))
+			if r.VolQu.Flags&7 == 0 {
+				wild[aURRVolQu] = true
+			} else {
+				attrs = append(attrs, r.VolQu.attr(aURRVolQu))
+			}
 		}
 	case "bar":
 		if r.Delay != nil {
